@@ -183,25 +183,45 @@ def check_sentinel(ctx: Context, rep, rule: str, cfg=None) -> None:
            "(isinstance), exactly once; not by `==` (iter(callable, sentinel) "
            "/ `element == STOP` run the element's own __eq__, which may raise "
            "or answer with an array)")
+    nf_ = lambda a, b, lab: lab not in ("exc", "raise")  # noqa: E731
+    all_puts = [n for n in cfg.calls() if isinstance(
+        n.ast.func, ast.Attribute) and n.ast.func.attr == "put" and
+        "_results" in norm(n.ast.func.value)]
+    all_gets = [n for n in cfg.calls() if isinstance(
+        n.ast.func, ast.Attribute) and n.ast.func.attr in ("get", "get_nowait")]
     for t in sent_tests:
-        body = t.stmt.body
-        puts = [c for s in body for c in ast.walk(s) if isinstance(c, ast.Call)
-                and isinstance(c.func, ast.Attribute) and c.func.attr == "put"
-                and "_results" in norm(c.func.value)]
-        ends = isinstance(body[-1], (ast.Return, ast.Break))
-        rep.ob(rule, len(puts) == 1 and ends, loc=run_fn.loc(t.ast),
-               where=run_fn.qualname,
-               construct=f"{len(puts)} put(s) then {type(body[-1]).__name__}",
+        # after the sentinel was recognised: every path to the exit of run()
+        # puts exactly one item on the result queue and takes nothing more
+        # (the branch may return, or break out of the loop and forward the
+        # sentinel after it)
+        t_succ = [m for m, lab in t.succ if lab == "true"]
+        region = cfg.reachable(t_succ, follow=nf_)
+        puts_r = [p for p in all_puts if p in region]
+        skip = cfg.exit in cfg.reachable(t_succ, avoiding=puts_r, follow=nf_)
+        twice = any(q in cfg.reachable([p], strict=True, follow=nf_)
+                    for p in puts_r for q in puts_r)
+        again = any(g in region for g in all_gets)
+        rep.ob(rule, bool(puts_r) and not skip and not twice and not again,
+               loc=run_fn.loc(t.ast), where=run_fn.qualname,
+               construct=f"sentinel -> {len(puts_r)} put site(s); skipped="
+               f"{skip}, twice={twice}, takes again={again}",
                message="one sentinel forwarded to the consumer, then the "
                "worker stops")
-    exits = [n for n in run_fn.body_nodes()
-             if isinstance(n, (ast.Return, ast.Break))]
-    for e in exits:
-        inside = any(e in ast.walk(s) for t in sent_tests for s in t.stmt.body)
-        rep.ob(rule, inside, loc=run_fn.loc(e), where=run_fn.qualname,
-               construct=short(e),
-               message="a worker may only stop in the sentinel branch "
-               "(otherwise the consumer waits for a sentinel that never comes)")
+    # the worker leaves its loop only through the sentinel branch
+    f_region = set()
+    for t in sent_tests:
+        f_succ = [m for m, lab in t.succ if lab == "false"]
+        # (through exception handlers too: a handler that returns ends the
+        # worker without a sentinel)
+        f_region |= cfg.reachable(
+            f_succ, avoiding=all_gets,
+            follow=lambda a, b, lab: b is not cfg.raise_exit)
+    rep.ob(rule, cfg.exit not in f_region, loc=run_fn.loc(),
+           where=run_fn.qualname,
+           construct="non-sentinel item: the loop continues (exit not "
+           "reachable before the next get)",
+           message="a worker may only stop in the sentinel branch "
+           "(otherwise the consumer waits for a sentinel that never comes)")
     # the item is taken by a blocking get on the to-process queue
     gets = [c for c in run_fn.calls() if isinstance(c.func, ast.Attribute) and
             c.func.attr in ("get", "get_nowait")]
